@@ -141,7 +141,7 @@ class HBatch(BatchBase):
             w.v("flush-empty", "flush body of %s#%d entered with no items" % (self.kind, self.serial))
         if w.active.get(self.kind) is self:
             w.v("flush-active", "batch %s#%d still the active batch inside its flush body" % (self.kind, self.serial))
-        lids = tuple(it.lid for it in self.items)
+        lids = tuple(it.glid for it in self.items)
         w.flushes.append((self.kind, lids, w.sched_flushing is self))
         if w.chk_ctx:
             w.check_contexts_at_flush(self)
@@ -181,6 +181,7 @@ class HItem(BatchItemBase):
         BatchItemBase.__init__(self, b)
         self.kind = kind
         self.lid = lid
+        self.glid = lid + w.lid_base if lid >= 0 else lid - w.lid_base
         self.mode = mode
         self.ncomputed = 0
         self.on_computed.subscribe(self._oc)
@@ -257,7 +258,7 @@ class HAttrTarget(object):
 
 class World(object):
     def __init__(self, prog, prefix=(), prio_mode="steer", conv="call", options=None, clock_step=1,
-                 chk_ctx=True, keep_scheduler=False, max_stack=None):
+                 chk_ctx=True, keep_scheduler=False, max_stack=None, inherit=None, lid_base=0):
         self.prog = prog
         self.flushmodes = prog.flushmodes
         self.prefix = prefix
@@ -271,6 +272,11 @@ class World(object):
         self.viol = []
         self.active = {}
         self.serial = 0
+        self.lid_base = lid_base
+        if inherit is not None:
+            # the same "services": batches left pending by the previous computation stay active
+            self.active = inherit.active
+            self.serial = inherit.serial
         self.flushes = []  # (kind, lids, via_scheduler)
         self.decisions = []  # (menu kinds sorted, chosen kind)
         self.nsched = 0  # scheduler flush count (index of next decision)
@@ -373,6 +379,8 @@ class World(object):
     def step_begin(self, tc, sid, leaves, exc):
         """Called right after a task body is (re)entered: at its start (sid None) and after each yield."""
         tid = tc.tid
+        if W is not self:
+            W.v("stale-task-ran", "a task body of an earlier computation (task %s) ran during a later computation" % (tid,))
         if exc is not None and isinstance(exc, GeneratorExit):
             self.closing.add(tid)
             self.last_yield.pop(tid, None)
